@@ -107,7 +107,10 @@ type Listener struct {
 	Owned    bool
 	OnAccept func(e *End)
 	Stream   bool // delivery mode for the accepted side
-	nconn    int
+	// StreamBack: deliveries towards the dialing side may split/coalesce (TCP re-segmentation
+	// of what the listener's side writes)
+	StreamBack bool
+	nconn      int
 }
 
 type DialVerdict int
@@ -907,6 +910,7 @@ func (s *Sim) completeDial(o *op) {
 	}
 	a, b := s.pair(s.uniq(o.from+">"+o.to), o.from, o.to, false)
 	b.Stream = l.Stream
+	a.Stream = l.StreamBack
 	rec.Verdict = "ok"
 	rec.End = a
 	s.DialLog = append(s.DialLog, rec)
@@ -1076,6 +1080,17 @@ func (s *Sim) PendingSummary() []string {
 		out = append(out, opKey(o))
 	}
 	sort.Strings(out)
+	return out
+}
+
+// PendingWriteData returns the payloads of writes parked on ends whose name has the prefix.
+func (s *Sim) PendingWriteData(prefix string) [][]byte {
+	var out [][]byte
+	for _, o := range s.pending {
+		if o.kind == opWrite && o.e != nil && strings.HasPrefix(o.e.Name, prefix) {
+			out = append(out, o.data[o.off:])
+		}
+	}
 	return out
 }
 
